@@ -35,13 +35,23 @@
 //! obs := `ok tok …`, one token per call: `F<fired, run-length encoded>/<a>/<b>` | `z` | `s` | `k`; `hang`; panic:…
 //!   `M I <rules> - <op> …` — ONE IncrementalEngine with the same NAMED rules (ak / inc / mk unused: no-op actions, facts of type
 //!   C), ops and observation tokens as in the `H` cases (`i<a>:<b>` `u<h>:<a>:<b>` `x<h>` `F` `Z`), names printed as "N<name>".
+//!
+//! NAMES: every numeric name code `k` above stands for the ordinary name (`r<k>`, `g<k>`, `x<k>`, `f<k>`, `N<k>`) when k < 10 or k > 29, and
+//!   for entry `k` of the table `odd_name` (codes 10..=29: "", " ", "  ", TAB, "MAIN", "main", "MAIN ", " MAIN", two 300-byte names that
+//!   differ in the last byte, "é" composed / decomposed, a CJK name with a blank, full-width "Ａ", "A", "a", "A ", NBSP, LF, "0") in EVERY
+//!   namespace (agenda group 14 is "Main", since "MAIN" is group 0).  The table is injective; observations print names by code.
+//!
+//! action case := `K <rules> <op> …` — ONE IncrementalEngine whose rules' ACTIONS queue retractions; rule =
+//!   `name:prio:noloop:ck:limit:acts` (`when C.<ck> < limit`), acts = `-` | `+`-joined list of `o` (ActionResult::Retract of the rule's own
+//!   matched fact), `h<n>` (Retract(FactHandle::new(n)): any handle — live, already retracted, never existing), `t` (RetractByType("C")),
+//!   queued in that order; ops and observation tokens as in the `H` cases, names printed as "N<name>".  At most 3 inserts per case.
 use rre_harness::*;
 use rust_rule_engine::rete::agenda::{Activation, AdvancedAgenda, ConflictResolutionStrategy};
 use rust_rule_engine::rete::facts::{FactValue, TypedFacts};
 use rust_rule_engine::rete::network::{ReteUlEngine, ReteUlNode, TypedReteUlEngine, TypedReteUlRule};
 use rust_rule_engine::rete::propagation::IncrementalEngine;
 use rust_rule_engine::rete::working_memory::FactHandle;
-use rust_rule_engine::rete::AlphaNode;
+use rust_rule_engine::rete::{ActionResult, ActionResults, AlphaNode};
 use std::collections::HashMap;
 use std::sync::atomic::{AtomicU64, Ordering};
 use std::sync::Arc;
@@ -50,11 +60,56 @@ use std::time::{Duration, Instant};
 const ACTION_BUDGET: u64 = 200_000; // far above every bound (1000, 100·rules); exceeded ⇒ the loop does not terminate
 const DEADLINE: Duration = Duration::from_secs(30);
 
+/// unusual but legal NAMES (codes 10..=29), one table for every namespace (rule names, agenda / activation / ruleflow groups, engine
+/// rule names): empty, blank-only (space, two spaces, tab, NBSP, newline), "MAIN" and its case / blank variants, very long names that
+/// differ in the last byte only, non-ASCII (composed / decomposed / CJK / full-width), names differing only in case or in a trailing
+/// blank.  The table is INJECTIVE: different codes are different strings, so they must be different rules / groups for the code.
+fn odd_name(code: u64) -> Option<String> {
+    Some(match code {
+        10 => "".into(),
+        11 => " ".into(),
+        12 => "  ".into(),
+        13 => "\t".into(),
+        14 => "MAIN".into(),
+        15 => "main".into(),
+        16 => "MAIN ".into(),
+        17 => " MAIN".into(),
+        18 => "x".repeat(300),
+        19 => format!("{}y", "x".repeat(299)),
+        20 => "\u{e9}".into(),
+        21 => "e\u{301}".into(),
+        22 => "\u{89c4}\u{5219} \u{4e00}".into(),
+        23 => "\u{ff21}".into(),
+        24 => "A".into(),
+        25 => "a".into(),
+        26 => "A ".into(),
+        27 => "\u{a0}".into(),
+        28 => "\n".into(),
+        29 => "0".into(),
+        _ => return None,
+    })
+}
+const ODD_LO: u64 = 10;
+const ODD_HI: u64 = 29;
+const BLANK_CODES: [u64; 6] = [10, 11, 12, 13, 27, 28];
+/// name with code `k` in the namespace whose ordinary names are `<prefix><k>`
+fn pname(prefix: &str, k: u64) -> String {
+    odd_name(k).unwrap_or_else(|| format!("{}{}", prefix, k))
+}
+/// inverse of `pname` (what the observations print): the code of a name, `?` for a name outside the table
+fn pcode(prefix: &str, s: &str) -> String {
+    if let Some(c) = (ODD_LO..=ODD_HI).find(|c| odd_name(*c).as_deref() == Some(s)) { return c.to_string(); }
+    match s.strip_prefix(prefix) {
+        Some(d) if !d.is_empty() && d.bytes().all(|b| b.is_ascii_digit()) => d.to_string(),
+        _ => "?".into(),
+    }
+}
+/// agenda groups: 0 = "MAIN"; code 14 would be "MAIN" again, it is "Main" in this namespace
 fn gname(g: u64) -> String {
-    if g == 0 { "MAIN".to_string() } else { format!("g{}", g) }
+    if g == 0 { "MAIN".to_string() } else if g == 14 { "Main".to_string() } else { pname("g", g) }
 }
 fn gnum(s: &str) -> String {
-    if s == "MAIN" { "0".into() } else { s.trim_start_matches('g').to_string() }
+    if s == "MAIN" { "0".into() } else if s == "Main" { "14".into() } else { pcode("g", s) }
 }
 fn opt(s: &str) -> Option<Option<u64>> {
     if s == "-" { Some(None) } else { s.parse().ok().map(Some) }
@@ -83,14 +138,14 @@ fn exec_agenda(ops: &[&str]) -> String {
                 ) else { return "bad-case".into() };
                 let fl: Vec<bool> = p[6].chars().map(|c| c == '1').collect();
                 if fl.len() != 3 { return "bad-case".into(); }
-                let mut a = Activation::new(format!("r{}", rule), sal)
+                let mut a = Activation::new(pname("r", rule), sal)
                     .with_agenda_group(gname(g))
                     .with_no_loop(fl[0])
                     .with_lock_on_active(fl[1])
                     .with_auto_focus(fl[2])
                     .with_condition_count(idx);
-                if let Some(x) = actg { a = a.with_activation_group(format!("x{}", x)); }
-                if let Some(x) = rfg { a = a.with_ruleflow_group(format!("f{}", x)); }
+                if let Some(x) = actg { a = a.with_activation_group(pname("x", x)); }
+                if let Some(x) = rfg { a = a.with_ruleflow_group(pname("f", x)); }
                 a.created_at = base + Duration::from_micros(created);
                 if keys.contains(&(g, sal, created)) { ties = true; }
                 keys.push((g, sal, created));
@@ -107,8 +162,8 @@ fn exec_agenda(ops: &[&str]) -> String {
             }
             "m" if p.len() == 5 => {
                 let (Ok(rule), Ok(g), Some(actg)) = (p[1].parse::<u64>(), p[2].parse::<u64>(), opt(p[3])) else { return "bad-case".into() };
-                let mut a = Activation::new(format!("r{}", rule), 0).with_agenda_group(gname(g)).with_lock_on_active(p[4] == "1");
-                if let Some(x) = actg { a = a.with_activation_group(format!("x{}", x)); }
+                let mut a = Activation::new(pname("r", rule), 0).with_agenda_group(gname(g)).with_lock_on_active(p[4] == "1");
+                if let Some(x) = actg { a = a.with_activation_group(pname("x", x)); }
                 ag.mark_rule_fired(&a);
             }
             "f" if p.len() == 2 => {
@@ -117,8 +172,8 @@ fn exec_agenda(ops: &[&str]) -> String {
             }
             "r" => ag.reset_fired_flags(),
             "c" => ag.clear(),
-            "R+" if p.len() == 2 => ag.activate_ruleflow_group(format!("f{}", p[1])),
-            "R-" if p.len() == 2 => ag.deactivate_ruleflow_group(&format!("f{}", p[1])),
+            "R+" if p.len() == 2 => { let Ok(k) = p[1].parse::<u64>() else { return "bad-case".into() }; ag.activate_ruleflow_group(pname("f", k)) }
+            "R-" if p.len() == 2 => { let Ok(k) = p[1].parse::<u64>() else { return "bad-case".into() }; ag.deactivate_ruleflow_group(&pname("f", k)) }
             "s" if p.len() == 2 => ag.set_strategy(strategy(p[1].parse().unwrap_or(0))),
             _ => return "bad-case".into(),
         }
@@ -254,16 +309,59 @@ fn cfact(a: i64, b: i64) -> TypedFacts {
 
 /// one engine, many calls (under the same watchdog as the single-call engine cases: the whole history shares the
 /// action budget and the deadline)
-fn exec_history(rules: Vec<CRule>, names: Option<Vec<u64>>, ops: Vec<String>) -> String {
+/// what the action of a `K` rule queues (in this order) in its `ActionResults`
+#[derive(Clone, Copy)]
+enum KAct { Own, Handle(u64), ByType }
+
+fn parse_kacts(s: &str) -> Option<Vec<KAct>> {
+    if s == "-" { return Some(vec![]); }
+    s.split('+').map(|a| match a {
+        "o" => Some(KAct::Own),
+        "t" => Some(KAct::ByType),
+        _ => a.strip_prefix('h').and_then(|h| h.parse().ok()).map(KAct::Handle),
+    }).collect()
+}
+
+/// `name:prio:noloop:ck:limit:acts`
+fn parse_krules(s: &str) -> Option<(Vec<CRule>, Vec<u64>, Vec<Vec<KAct>>)> {
+    let (mut rs, mut ns, mut acts) = (vec![], vec![], vec![]);
+    if s == "-" { return Some((rs, ns, acts)); }
+    for r in s.split(',') {
+        let p: Vec<&str> = r.split(':').collect();
+        if p.len() != 6 { return None; }
+        ns.push(p[0].parse().ok()?);
+        rs.push(CRule { prio: p[1].parse().ok()?, no_loop: p[2] == "1", ck: p[3] == "1", limit: p[4].parse().ok()?, ak: false, inc: 0 });
+        acts.push(parse_kacts(p[5])?);
+    }
+    Some((rs, ns, acts))
+}
+
+/// fired names of a named rule set, printed by CODE (`N<code>`, see `pname`)
+fn rle_n(names: &[String]) -> String {
+    rle(&names.iter().map(|n| format!("N{}", pcode("N", n))).collect::<Vec<_>>())
+}
+
+fn exec_history(rules: Vec<CRule>, names: Option<Vec<u64>>, kacts: Option<Vec<Vec<KAct>>>, ops: Vec<String>) -> String {
     guarded(move |count| {
         let mut e = IncrementalEngine::new();
+        let named = names.is_some();
         for (i, r) in rules.iter().enumerate() {
             let node = ReteUlNode::UlAlpha(AlphaNode { field: key(r.ck).into(), operator: "<".into(), value: r.limit.to_string() });
             let cnt = count.clone();
-            let name = match &names { Some(ns) => format!("N{}", ns[i]), None => format!("R{}", i) };
+            let name = match &names { Some(ns) => pname("N", ns[i]), None => format!("R{}", i) };
+            let acts: Vec<KAct> = kacts.as_ref().map(|k| k[i].clone()).unwrap_or_default();
             e.add_rule(
                 TypedReteUlRule { name, node, priority: r.prio, no_loop: r.no_loop,
-                    action: Arc::new(move |_f: &mut TypedFacts, _r| { tick(&cnt); }) },
+                    action: Arc::new(move |f: &mut TypedFacts, res: &mut ActionResults| {
+                        tick(&cnt);
+                        for a in &acts {
+                            match a {
+                                KAct::Own => if let Some(h) = f.get_fact_handle("C") { res.add(ActionResult::Retract(h)); },
+                                KAct::Handle(h) => res.add(ActionResult::Retract(FactHandle::new(*h))),
+                                KAct::ByType => res.add(ActionResult::RetractByType("C".to_string())),
+                            }
+                        }
+                    }) },
                 vec!["C".to_string()],
             );
         }
@@ -283,7 +381,7 @@ fn exec_history(rules: Vec<CRule>, names: Option<Vec<u64>>, ops: Vec<String>) ->
                     Ok(h) => format!("x{}", if e.retract(FactHandle::new(h)).is_ok() { 1 } else { 0 }),
                     _ => return "bad-case".into(),
                 },
-                b'F' if op == "F" => format!("F{}", rle(&e.fire_all())),
+                b'F' if op == "F" => { let fired = e.fire_all(); format!("F{}", if named { rle_n(&fired) } else { rle(&fired) }) }
                 b'Z' if op == "Z" => { e.reset(); "z".to_string() }
                 _ => return "bad-case".into(),
             };
@@ -339,17 +437,17 @@ fn exec_named(kind: String, rules: Vec<NRule>, init: (i64, i64), ops: Vec<String
             let node = ReteUlNode::UlAlpha(AlphaNode { field: key(r.ck).into(), operator: "<".into(), value: r.limit.to_string() });
             let (ak, inc, cnt, mk) = (r.ak, r.inc, count.clone(), nr.mk);
             match &mut e {
-                MapEngine::T(e) => e.add_rule_with_action(format!("N{}", nr.name), node, r.prio, r.no_loop, move |f: &mut TypedFacts, _| {
+                MapEngine::T(e) => e.add_rule_with_action(pname("N", nr.name), node, r.prio, r.no_loop, move |f: &mut TypedFacts, _| {
                     tick(&cnt);
                     let v = f.get(key(ak)).and_then(|v| v.as_integer()).unwrap_or(0);
                     f.set(key(ak), FactValue::Integer(v + inc));
-                    if let Some((k, v)) = mk { f.set(format!("N{}_fired", k), mark_typed(v)); }
+                    if let Some((k, v)) = mk { f.set(format!("{}_fired", pname("N", k)), mark_typed(v)); }
                 }),
-                MapEngine::U(e) => e.add_rule_with_action(format!("N{}", nr.name), node, r.prio, r.no_loop, move |f: &mut HashMap<String, String>| {
+                MapEngine::U(e) => e.add_rule_with_action(pname("N", nr.name), node, r.prio, r.no_loop, move |f: &mut HashMap<String, String>| {
                     tick(&cnt);
                     let v: i64 = f.get(key(ak)).and_then(|v| v.parse().ok()).unwrap_or(0);
                     f.insert(key(ak).to_string(), (v + inc).to_string());
-                    if let Some((k, v)) = mk { f.insert(format!("N{}_fired", k), mark_string(v)); }
+                    if let Some((k, v)) = mk { f.insert(format!("{}_fired", pname("N", k)), mark_string(v)); }
                 }),
             }
         }
@@ -366,12 +464,12 @@ fn exec_named(kind: String, rules: Vec<NRule>, init: (i64, i64), ops: Vec<String
                     MapEngine::T(e) => {
                         let fired = e.fire_all();
                         let g = |k: &str| e.get_fact(k).and_then(|v| v.as_integer()).map(|v| v.to_string()).unwrap_or("?".into());
-                        format!("F{}/{}/{}", rle(&fired), g("C.a"), g("C.b"))
+                        format!("F{}/{}/{}", rle_n(&fired), g("C.a"), g("C.b"))
                     }
                     MapEngine::U(e) => {
                         let fired = e.fire_all();
                         let g = |k: &str| e.get_fact(k).cloned().unwrap_or("?".into());
-                        format!("F{}/{}/{}", rle(&fired), g("C.a"), g("C.b"))
+                        format!("F{}/{}/{}", rle_n(&fired), g("C.a"), g("C.b"))
                     }
                 },
                 b'Z' if op == "Z" => { match &mut e { MapEngine::T(e) => e.reset_fired_flags(), MapEngine::U(e) => e.reset_fired_flags() }; "z".to_string() }
@@ -382,8 +480,8 @@ fn exec_named(kind: String, rules: Vec<NRule>, init: (i64, i64), ops: Vec<String
                 b'k' => match parse_mark(&op[1..]) {
                     Some((n, v)) => {
                         match &mut e {
-                            MapEngine::T(e) => e.set_fact(format!("N{}_fired", n), mark_typed(v)),
-                            MapEngine::U(e) => e.set_fact(format!("N{}_fired", n), mark_string(v)),
+                            MapEngine::T(e) => e.set_fact(format!("{}_fired", pname("N", n)), mark_typed(v)),
+                            MapEngine::U(e) => e.set_fact(format!("{}_fired", pname("N", n)), mark_string(v)),
                         }
                         "k".to_string()
                     }
@@ -403,7 +501,11 @@ fn exec(case: &str) -> String {
         Some("A") => exec_agenda(&t[1..]),
         Some("H") if t.len() >= 2 => {
             let Some(rules) = parse_rules(t[1]) else { return "bad-case".into() };
-            exec_history(rules, None, t[2..].iter().map(|s| s.to_string()).collect())
+            exec_history(rules, None, None, t[2..].iter().map(|s| s.to_string()).collect())
+        }
+        Some("K") if t.len() >= 2 => {
+            let Some((rules, names, acts)) = parse_krules(t[1]) else { return "bad-case".into() };
+            exec_history(rules, Some(names), Some(acts), t[2..].iter().map(|s| s.to_string()).collect())
         }
         Some("E") if t.len() == 4 => {
             let (Some(rules), Some(facts)) = (parse_rules(t[2]), parse_facts(t[3])) else { return "bad-case".into() };
@@ -412,7 +514,7 @@ fn exec(case: &str) -> String {
         Some("M") if t.len() >= 4 && t[1] == "I" => {
             let Some(rules) = parse_nrules(t[2]) else { return "bad-case".into() };
             let names = rules.iter().map(|r| r.name).collect();
-            exec_history(rules.into_iter().map(|r| r.r).collect(), Some(names), t[4..].iter().map(|s| s.to_string()).collect())
+            exec_history(rules.into_iter().map(|r| r.r).collect(), Some(names), None, t[4..].iter().map(|s| s.to_string()).collect())
         }
         Some("M") if t.len() >= 4 => {
             let (Some(rules), Some(facts)) = (parse_nrules(t[2]), parse_facts(t[3])) else { return "bad-case".into() };
@@ -706,6 +808,148 @@ fn gen_marks(rng: &mut Rng) -> String {
     format!("M {} {} {} {}", kind, rules.join(","), init, ops.join(" "))
 }
 
+/// one name code of a namespace: an ordinary one (`0..base`) or an unusual one (`odd_name`); `blank_bias`: prefer the blank-only names
+fn gen_code(rng: &mut Rng, base: u64, blank_bias: bool) -> u64 {
+    match rng.below(4) {
+        0 => rng.below(base),
+        1 if blank_bias => *rng.pick(&BLANK_CODES),
+        _ => rng.range(ODD_LO, ODD_HI),
+    }
+}
+/// pool of `k` pairwise different codes
+fn gen_pool(rng: &mut Rng, k: usize, base: u64, blank_bias: bool) -> Vec<u64> {
+    let mut out: Vec<u64> = Vec::new();
+    while out.len() < k {
+        let c = gen_code(rng, base, blank_bias);
+        if !out.contains(&c) { out.push(c); }
+    }
+    out
+}
+
+/// family "unusual but legal NAMES" at the agenda level: the histories of `gen_agenda`, but rule names, agenda groups, activation
+/// groups and ruleflow groups are drawn from small per-case pools that mix the ordinary names with the `odd_name` table — "" and
+/// blank-only names, "MAIN" / "main" / "MAIN " / " MAIN" as an activation-group, ruleflow-group or rule name and next to the agenda
+/// group MAIN, 300-byte names differing in the last byte, non-ASCII names, names differing only in case or in a trailing blank
+/// (DIFFERENT names: no-loop / activation-group memory of one must not leak to the other, and each must have its own).  Activation
+/// groups are frequent (1/2 of the adds) so that group exclusivity is exercised for every name.
+fn gen_agenda_names(rng: &mut Rng) -> String {
+    let len = rng.range(2, 14) as usize;
+    let rules = gen_pool(rng, 3, 3, false);
+    let mut ags = vec![0u64];
+    let extra = rng.range(0, 2) as usize;
+    for c in gen_pool(rng, extra, 3, true) { if c != 0 { ags.push(c); } }
+    let actgs = gen_pool(rng, 2, 2, true);
+    let rfgs = gen_pool(rng, 2, 2, true);
+    let addish = rng.range(4, 8);
+    let mut ops = Vec::new();
+    for i in 0..len {
+        let op = if rng.below(10) < addish {
+            let actg = if rng.chance(1, 2) { rng.pick(&actgs).to_string() } else { "-".into() };
+            let rfg = if rng.chance(1, 8) { rng.pick(&rfgs).to_string() } else { "-".into() };
+            format!("a:{}:{}:{}:{}:{}:{}{}{}:{}", rng.pick(&rules), gen_sal(rng), rng.pick(&ags), actg, rfg,
+                rng.below(2), if rng.chance(1, 8) { 1 } else { 0 }, if rng.chance(1, 8) { 1 } else { 0 }, i)
+        } else {
+            match rng.below(16) {
+                0..=3 => "p".to_string(),
+                4..=9 => "q".to_string(),
+                10 => format!("m:{}:{}:{}:{}", rng.pick(&rules), rng.pick(&ags),
+                    if rng.chance(1, 2) { rng.pick(&actgs).to_string() } else { "-".into() }, rng.below(2)),
+                11 | 12 => format!("f:{}", if rng.chance(3, 4) { *rng.pick(&ags) } else { gen_code(rng, 3, true) }),
+                13 => "r".to_string(),
+                14 => if rng.chance(1, 3) { "c".to_string() } else { format!("s:{}", rng.below(7)) },
+                _ => format!("R{}:{}", if rng.chance(2, 3) { "+" } else { "-" }, rng.pick(&rfgs)),
+            }
+        };
+        ops.push(op);
+    }
+    if rng.chance(3, 4) {
+        let drain = if rng.chance(2, 3) { "q" } else { "p" };
+        for _ in 0..rng.range(1, 6) { ops.push(drain.to_string()); }
+    }
+    format!("A {}", ops.join(" "))
+}
+
+/// family "rules whose ACTIONS retract facts" (`K`): one IncrementalEngine, 1..3 NAMED rules (pairwise distinct saliences, mostly
+/// no-loop), each action queueing 0..2 retractions — of its OWN matched fact (`o`), of a fixed handle (`h<n>`: another rule's
+/// fact, a handle that a higher-salience rule or the same action has already retracted, a handle that never existed), or of the first
+/// fact of the type (`t`) — driven through 2..4 fire_all calls with inserts / updates / retracts and sometimes a reset in between;
+/// at most 3 facts are ever inserted (the iteration order of the type index is then one fixed permutation per run, see the model).
+/// The clause "a no-loop rule fires at most once between resets" is evaluated over the whole history (`histOk`).
+fn gen_kact(rng: &mut Rng) -> String {
+    let mut prios: Vec<i64> = vec![-7, -1, 0, 3, 10, 50, i32::MAX as i64, i32::MIN as i64];
+    rng.shuffle(&mut prios);
+    let nrules = *rng.pick(&[1usize, 2, 2, 2, 3]);
+    let odd_names = rng.chance(1, 4);
+    let names: Vec<u64> = if odd_names { gen_pool(rng, nrules, 3, true) } else { (0..nrules as u64).collect() };
+    let mut rules = Vec::new();
+    for i in 0..nrules {
+        let nl = rng.chance(4, 5);
+        let act = |rng: &mut Rng| -> String {
+            match rng.below(8) {
+                0 | 1 => "o".to_string(),
+                2 => "t".to_string(),
+                3 => format!("h{}", *rng.pick(&[4u64, 9, 99, 0])),          // never existed (at most 3 inserts)
+                _ => format!("h{}", rng.range(1, 3)),
+            }
+        };
+        let mut acts: Vec<String> = Vec::new();
+        for _ in 0..*rng.pick(&[0u64, 1, 1, 1, 2, 2]) { acts.push(act(rng)); }
+        // a rule without no-loop consumes what it matched (otherwise it is the runaway of the `H` family) — mostly
+        if !nl && rng.chance(5, 6) && !acts.iter().any(|a| a == "o") { acts.insert(0, "o".to_string()); }
+        let limit = if rng.chance(2, 3) { *rng.pick(&[1_000_000_000i64, 150]) } else { rng.range(1, 6) as i64 };
+        // a name may be registered twice (rarely): the second registration shares the name of rule 0
+        let name = if i > 0 && rng.chance(1, 12) { names[0] } else { names[i] };
+        rules.push(format!("{}:{}:{}:{}:{}:{}", name, prios[i], if nl { 1 } else { 0 }, rng.below(2), limit,
+            if acts.is_empty() { "-".to_string() } else { acts.join("+") }));
+    }
+    let fact = |rng: &mut Rng| format!("{}:{}", rng.below(6), rng.below(6));
+    let mut ops: Vec<String> = Vec::new();
+    let mut inserted = 0u64;
+    // a rule without no-loop that does not consume its fact runs to the bound (1000 firings, each re-creating one activation per
+    // match): such histories keep to ONE fact (the model is run once per iteration order of the facts)
+    let runaway = rules.iter().any(|r| { let p: Vec<&str> = r.split(':').collect(); p[2] == "0" && !p[5].split('+').any(|a| a == "o") });
+    let max_ins = if runaway { 1 } else { 3 };
+    for _ in 0..(*rng.pick(&[1u64, 2, 2, 3])).min(max_ins) { ops.push(format!("i{}", fact(rng))); inserted += 1; }
+    if rng.chance(1, 8) { ops.push(format!("x{}", rng.range(1, inserted))); }
+    ops.push("F".into());
+    for _ in 0..*rng.pick(&[1u64, 1, 2, 2, 3]) {
+        if rng.chance(1, 5) { ops.push("Z".into()); }
+        match rng.below(6) {
+            0 | 1 | 2 if inserted < max_ins => { ops.push(format!("i{}", fact(rng))); inserted += 1; }
+            5 => ops.push(format!("x{}", rng.range(1, inserted))),
+            _ => ops.push(format!("u{}:{}", rng.range(1, inserted), fact(rng))),
+        }
+        ops.push("F".into());
+    }
+    format!("K {} {}", rules.join(","), ops.join(" "))
+}
+
+/// engine-level names: rewrites the rule-name codes of an `M` / `K` case through an injective map into the `odd_name` table
+fn odd_rule_names(rng: &mut Rng, case: &str) -> String {
+    let t: Vec<&str> = case.split_whitespace().collect();
+    let ri = if t[0] == "M" { 2 } else { 1 };
+    let map = gen_pool(rng, 3, 1, true).into_iter().map(|c| if c == 0 { 29 } else { c }).collect::<Vec<u64>>();
+    let m = |k: &str| -> String { k.parse::<usize>().ok().and_then(|k| map.get(k)).map(|c| c.to_string()).unwrap_or(k.to_string()) };
+    let rules: Vec<String> = t[ri].split(',').map(|r| {
+        let mut p: Vec<String> = r.split(':').map(|x| x.to_string()).collect();
+        p[0] = m(&p[0]);
+        if t[0] == "M" && p.len() == 8 && p[7] != "-" {
+            p[7] = match p[7].split_once('=') { Some((k, v)) => format!("{}={}", m(k), v), None => m(&p[7]) };
+        }
+        p.join(":")
+    }).collect();
+    let mut out: Vec<String> = t.iter().map(|x| x.to_string()).collect();
+    out[ri] = rules.join(",");
+    if t[0] == "M" {
+        for o in out.iter_mut().skip(4) {
+            if let Some(k) = o.strip_prefix('k') {
+                *o = match k.split_once('=') { Some((k, v)) => format!("k{}={}", m(k), v), None => format!("k{}", m(k)) };
+            }
+        }
+    }
+    out.join(" ")
+}
+
 fn gen(rng: &mut Rng, n: usize, _tier: &str) -> Vec<String> {
     let mut out = Vec::new();
     for i in 0..n {
@@ -718,6 +962,14 @@ fn gen(rng: &mut Rng, n: usize, _tier: &str) -> Vec<String> {
     // marker-value family: own stream again
     let mut r3 = Rng::new(r2.next() ^ 0x4d41_524b_5631);
     for _ in 0..n / 16 { out.push(gen_marks(&mut r3)); }
+    // unusual names (agenda level and engine level) and rules whose actions retract facts: own stream again
+    let mut r4 = Rng::new(r3.next() ^ 0x4e41_4d45_5335);
+    for _ in 0..n / 8 { out.push(gen_agenda_names(&mut r4)); }
+    for _ in 0..n / 16 { out.push(gen_kact(&mut r4)); }
+    for i in 0..n / 32 {
+        let c = if i % 2 == 0 { gen_named(&mut r4) } else { gen_marks(&mut r4) };
+        out.push(odd_rule_names(&mut r4, &c));
+    }
     out
 }
 
@@ -730,6 +982,37 @@ fn shrink(case: &str) -> Vec<String> {
             let mut out: Vec<String> = shrink_list(&t[2..]).into_iter().map(|v| format!("H {} {}", t[1], v.join(" "))).collect();
             if rules.len() > 1 {
                 for v in shrink_list(&rules) { if !v.is_empty() { out.push(format!("H {} {}", v.join(","), t[2..].join(" "))); } }
+            }
+            out
+        }
+        Some("K") if t.len() >= 2 => {
+            let rules: Vec<&str> = t[1].split(',').collect();
+            let mut out: Vec<String> = shrink_list(&t[2..]).into_iter().map(|v| format!("K {} {}", t[1], v.join(" "))).collect();
+            if rules.len() > 1 {
+                for v in shrink_list(&rules) { if !v.is_empty() { out.push(format!("K {} {}", v.join(","), t[2..].join(" "))); } }
+            }
+            // simpler rules: fewer queued results, ordinary name, salience 0 (only when there is one rule: saliences stay distinct)
+            for (i, r) in rules.iter().enumerate() {
+                let p: Vec<&str> = r.split(':').collect();
+                if p.len() != 6 { continue; }
+                let mut alts: Vec<Vec<String>> = Vec::new();
+                let acts: Vec<&str> = if p[5] == "-" { vec![] } else { p[5].split('+').collect() };
+                for v in shrink_list(&acts) {
+                    let mut q: Vec<String> = p.iter().map(|x| x.to_string()).collect();
+                    q[5] = if v.is_empty() { "-".to_string() } else { v.join("+") };
+                    alts.push(q);
+                }
+                if p[0].parse::<u64>().map(|c| c >= ODD_LO).unwrap_or(false) {
+                    let mut q: Vec<String> = p.iter().map(|x| x.to_string()).collect(); q[0] = i.to_string(); alts.push(q);
+                }
+                if rules.len() == 1 && p[1] != "0" {
+                    let mut q: Vec<String> = p.iter().map(|x| x.to_string()).collect(); q[1] = "0".to_string(); alts.push(q);
+                }
+                for q in alts {
+                    let mut rs: Vec<String> = rules.iter().map(|x| x.to_string()).collect();
+                    rs[i] = q.join(":");
+                    out.push(format!("K {} {}", rs.join(","), t[2..].join(" ")));
+                }
             }
             out
         }
